@@ -197,6 +197,25 @@ class NearSQLContainer:
     ) -> Tuple["NearSQLContainer", List[Tuple[str, "NearSQLContainer"]]]:
         if self.near_sql.is_table:  # table or common table expression
             return self, []
+        # check the cache before converting the sub-query: a hit discards this sub-query, so none of its
+        # steps may be registered in the cache (they would not be emitted)
+        ops_key = f"{self.near_sql.ops_key}"
+        if self.columns is not None:
+            ops_key = f"{ops_key}_{list(self.columns)}"
+        if cte_cache is not None:
+            try:
+                retrieved_cte = cte_cache[ops_key]
+                # copy in context fields
+                new_stub = NearSQLContainer(
+                    near_sql=retrieved_cte,
+                    columns=self.columns,
+                    force_sql=self.force_sql,
+                    public_name=self.public_name,
+                    public_name_quoted=self.public_name_quoted,
+                )
+                return new_stub, []
+            except KeyError:
+                pass
         in_with_form = self.near_sql.to_with_form(cte_cache=cte_cache)
         sequence = in_with_form.previous_steps
         stub = in_with_form.last_step
@@ -208,24 +227,6 @@ class NearSQLContainer:
             assert isinstance(v[0], str)
             assert isinstance(v[1], NearSQLContainer)
         if not stub.is_table:
-            # first check cache
-            ops_key = f"{self.near_sql.ops_key}"
-            if self.columns is not None:
-                ops_key = f"{ops_key}_{list(self.columns)}"
-            if (cte_cache is not None) and (ops_key is not None):
-                try:
-                    retrieved_cte = cte_cache[ops_key]
-                    # copy in context fields
-                    new_stub = NearSQLContainer(
-                        near_sql=retrieved_cte,
-                        columns=self.columns,
-                        force_sql=self.force_sql,
-                        public_name=self.public_name,
-                        public_name_quoted=self.public_name_quoted,
-                    )
-                    return new_stub, []
-                except KeyError:
-                    pass
             # replace step with a reference
             if stub.quoted_query_name not in {k for k, v in sequence}:
                 sequence.append(
